@@ -31,6 +31,8 @@ type UMsg struct {
 	ID       int
 	Panic    bool
 	Internal bool
+	Chain    int
+	Link     bool // sent by the receiver to itself as part of a chain
 	GateNext bool
 }
 type GateMsg struct{ N int }
@@ -38,6 +40,13 @@ type SyncMsg struct{ N int }
 type ProbeMsg struct{ N int }
 type Fence struct{ N int }
 type ctxKey struct{}
+
+func chainOf(op Op, n int) int {
+	if n == 1 && !op.Panic {
+		return op.Chain
+	}
+	return 0
+}
 
 // ---- observation ------------------------------------------------------------
 
@@ -117,6 +126,7 @@ type world struct {
 	helperDone chan struct{}
 	firstSpawn bool
 	procFirst  map[int]bool // incarnation numbers that are the first of a process
+	chainEnds  map[int]bool // ids of final chain links that have been handled
 	childPIDs  [][]*actor.PID
 }
 
@@ -208,6 +218,13 @@ func (r *rcv) Receive(c *actor.Context) {
 	case UMsg:
 		e.Kind, e.ID, e.MsgOK = "user", m.ID, true
 		w.add(e)
+		if m.Chain > 0 {
+			c.Send(c.PID(), UMsg{ID: m.ID + 1, Chain: m.Chain - 1, Link: true})
+		} else if m.Link {
+			w.mu.Lock()
+			w.chainEnds[m.ID] = true
+			w.mu.Unlock()
+		}
 		if m.Panic {
 			if m.GateNext {
 				w.pendGate.Store(true)
@@ -484,7 +501,7 @@ func Run(spec Spec, waitOrphans bool) (*Obs, *Sim, error) {
 	}
 	w := &world{spec: spec, e: e, gateIn: make(chan struct{}, 1), gateOut: make(chan struct{}),
 		syncCh: make(chan int, 16), fenceCh: make(chan int, 16), helperGo: make(chan struct{}),
-		helperDone: make(chan struct{}), procFirst: map[int]bool{}}
+		helperDone: make(chan struct{}), procFirst: map[int]bool{}, chainEnds: map[int]bool{}}
 	w.evCond = sync.NewCond(&w.mu)
 	w.evNote = make(chan struct{}, 1)
 	for i := 0; i < 3; i++ {
@@ -605,7 +622,74 @@ func Run(spec Spec, waitOrphans bool) (*Obs, *Sim, error) {
 	// settle brings the driver in step with the model after an op: wait for the gate the
 	// model says the actor runs into, or for the death the model predicts.
 	deaths := 0
+	var chainFinals []int // ids of the final links of the chains sent so far
+	expIdx := 0
+	expectedUser := map[int]bool{}
+	chainsDone := func() error {
+		// A self-feeding chain runs asynchronously.  The model runs it to completion before the next
+		// driver op, so the driver must not send anything while a chain that the model has already
+		// finished is still running in the engine (its links queue up behind whatever is sent).
+		for ; expIdx < len(sim.Exp); expIdx++ {
+			if sim.Exp[expIdx].Kind == "user" {
+				expectedUser[sim.Exp[expIdx].ID] = true
+			}
+		}
+		deadline := time.Now().Add(waitLimit)
+		started := time.Now()
+		probed := false
+		for _, id := range chainFinals {
+			if !expectedUser[id] {
+				continue
+			}
+			for {
+				w.mu.Lock()
+				ok := w.chainEnds[id]
+				w.mu.Unlock()
+				if ok {
+					break
+				}
+				if time.Now().After(deadline) {
+					return fmt.Errorf("%w: the self-feeding chain ending in message %d did not finish", ErrInconclusive, id)
+				}
+				if time.Since(started) > 2*time.Second && !probed {
+					// Slow or broken?  Exactly one link is in flight at any time, and it is queued before
+					// any probe sent after the previous probe was handled; so every probe round trip moves a
+					// live chain forward by at least one link.  After more round trips than the chain has
+					// links the final link must have been handled - otherwise links were lost.
+					probed = true
+					for r := 0; r < 400; r++ {
+						w.probeSeq++
+						pn := 3000000 + w.probeSeq
+						e.Send(w.pid, SyncMsg{N: pn})
+						for {
+							n, err := recvTimeout(w.syncCh, "probe behind a stalled chain")
+							if err != nil {
+								return err
+							}
+							if n == pn {
+								break
+							}
+						}
+					}
+					w.mu.Lock()
+					ok = w.chainEnds[id]
+					w.mu.Unlock()
+					if !ok {
+						return fmt.Errorf("%w: the self-feeding chain ending in message %d stopped: 400 later messages were handled, one after the other, and its final link still was not (links were lost or the actor rests with them queued)", ErrDiverged, id)
+					}
+					break
+				}
+				time.Sleep(200 * time.Microsecond)
+			}
+		}
+		return nil
+	}
 	settle := func() error {
+		if !sim.Gated && sim.Alive {
+			if err := chainsDone(); err != nil {
+				return err
+			}
+		}
 		gate := sim.TakeGateReached()
 		died := len(sim.Deaths) > deaths
 		if gate || died {
@@ -651,7 +735,10 @@ func Run(spec Spec, waitOrphans bool) (*Obs, *Sim, error) {
 					from = w.senders[op.From-1]
 				}
 				for k := 0; k < n; k++ {
-					e.SendWithSender(w.pid, UMsg{ID: op.ID + k, Panic: op.Panic && n == 1, Internal: op.Internal && op.Panic && n == 1, GateNext: op.GateNext && n == 1}, from)
+					e.SendWithSender(w.pid, UMsg{ID: op.ID + k, Panic: op.Panic && n == 1, Internal: op.Internal && op.Panic && n == 1, GateNext: op.GateNext && n == 1, Chain: chainOf(op, n)}, from)
+				}
+				if c := chainOf(op, n); c > 0 {
+					chainFinals = append(chainFinals, op.ID+c)
 				}
 				sim.Send(op)
 			case "gate":
